@@ -6,7 +6,7 @@ from ..relational import differs, as_z3, is_ok, is_err, pair_same_outcome
 ID = 'C20'
 # Engine B on the rewritten description's emitted code (incl. a #[base] field that is not the first field)
 ENGINE_B = {'template': 't_equiv', 'kinds': ['layout_', 'accessor_', 'dispatch_'], 'max_quick': 10, 'max_thorough': 48, 'pair_bytes': True,
-            'fixed': [[8, 8, 16, 8, 8, 0, 0, 0, 1, 0, 0, 0, 0, 0, 1, 0, 0], [8, 8, 16, 8, 16, 0, 0, 0, 0, 1, 0, 0, 1, 0, 1, 0, 0]]}
+            'fixed': [[8, 8, 16, 8, 8, 0, 0, 0, 1, 0, 0, 0, 0, 0, 1, 0, 0, 0], [8, 8, 16, 8, 16, 0, 0, 0, 0, 1, 0, 0, 1, 0, 1, 0, 0, 0], [8, 8, 8, 8, 16, 0, 0, 0, 1, 0, 0, 0, 0, 0, 0, 0, 0, 1]]}
 EXPLANATION = ('Product template t_equiv builds a description and a rewritten description in one symbolic run: two extern-typed fields with '
                'symbolic sizes and a symbolic gap between them, an optional vftable block, and an enum with a symbolic first value.  The '
                'rewrites, each switched by its own flag and applied singly and in every combination: explicit #[address] equal to the '
@@ -26,7 +26,8 @@ def bounds(tier):
 
 
 def assume(a, ps, vft, base_mode=0, packed=0):
-    A = [a[0] == ps, a[6] == vft, a[14] == base_mode, a[15] == packed, z3.ULE(a[16], 2), z3.Implies(a[8] == 0, a[16] == 0)]
+    A = [a[0] == ps, a[6] == vft, a[14] == base_mode, a[15] == packed, z3.ULE(a[16], 2), z3.Implies(a[8] == 0, a[16] == 0),
+         z3.ULE(a[17], 1), z3.Implies(a[17] != 0, z3.And(a[8] != 0, a[16] == 0, z3.UGE(a[4], 2)))]
     if base_mode: A += [a[7] == 0, a[10] == 0, z3.URem(a[4], a[0]) == 0, z3.URem(a[2], a[0]) == 0, a[3] == ps]
     A += [z3.ULT(a[1], 1 << 10), z3.UGE(a[1], 1), z3.ULT(a[2], 1 << 10), z3.UGE(a[2], 1), z3.ULT(a[4], 1 << 10)]
     A.append(z3.Or(*[a[3] == x for x in (1, 2, 4, 8)]))
@@ -42,17 +43,17 @@ def slices(tier, rng):
     for ps in (4, 8):
         for vft in (0, 1):
             if tier == 'quick' and ((ps == 8 and vft == 0) or (ps == 4 and vft == 1)): continue
-            out.append(Slice('equiv-ps%d-vft%d' % (ps, vft), 't_equiv', 17, lambda a, ps=ps, vft=vft: assume(a, ps, vft),
+            out.append(Slice('equiv-ps%d-vft%d' % (ps, vft), 't_equiv', 18, lambda a, ps=ps, vft=vft: assume(a, ps, vft),
                              opts={'summarize': ['gcd'], 'must_reach': ['ok/ok']}))
         # packed type: fields may sit at offsets that are not multiples of their alignment
-        out.append(Slice('equiv-packed-ps%d' % ps, 't_equiv', 17, lambda a, ps=ps: assume(a, ps, 0, 0, 1),
+        out.append(Slice('equiv-packed-ps%d' % ps, 't_equiv', 18, lambda a, ps=ps: assume(a, ps, 0, 0, 1),
                          opts={'summarize': ['gcd'], 'must_reach': ['ok/ok']}))
         # packed type with a leading u8: the extern-typed fields sit at misaligned offsets, and explicit addresses / unknown<g> / #[size]
         # follow a misaligned field
-        out.append(Slice('equiv-packed-misaligned-ps%d' % ps, 't_equiv', 17, lambda a, ps=ps: assume(a, ps, 0, 0, 2),
+        out.append(Slice('equiv-packed-misaligned-ps%d' % ps, 't_equiv', 18, lambda a, ps=ps: assume(a, ps, 0, 0, 2),
                          opts={'summarize': ['gcd'], 'must_reach': ['ok/ok']}))
         # the field after the gap is a #[base] whose type has a vftable (the derived type shares it)
-        out.append(Slice('equiv-base-ps%d' % ps, 't_equiv', 17, lambda a, ps=ps: assume(a, ps, 0, 1),
+        out.append(Slice('equiv-base-ps%d' % ps, 't_equiv', 18, lambda a, ps=ps: assume(a, ps, 0, 1),
                          opts={'summarize': ['gcd'], 'must_reach': ['ok/ok']}))
     return out
 
@@ -77,4 +78,5 @@ def describe(template, args):
     return ('// pointer size %d; X0 size %d, X1 size %d, alignment %d, gap %d, enum first value %d, vftable %s\n// rewrites applied to the second '
             'description: %s') % (a[0], a[1], a[2], a[3], a[4], a[5] - (1 << 64) if a[5] >> 63 else a[5], bool(a[6]),
                                   ', '.join(n for n, f in zip(names, a[7:14]) if f) or 'none') + (
+        '' if len(a) < 18 or not a[17] else '\n// the gap is two adjacent unknown<..> fields in the first description; the second keeps the first and reaches f1 by its address') + (
         '' if len(a) < 17 or not a[16] else '\n// the gap in the first description is written %s' % ('`pub _: unknown<g>`' if a[16] == 1 else 'with a doc comment'))
